@@ -129,6 +129,9 @@ CTX = [
     ("  type(l", {"leaf_t"}, {"leaf_t", "mid_t", "base_t", "other_t", "o", "w", "arr", "lvar"}),
     ("  class(b", {"base_t"}, {"leaf_t", "mid_t", "base_t", "other_t", "o", "w", "arr", "bvar"}),
     ("  call s", {"s", "sub2"}, {"s", "sub2", "svar", "sfun"}),
+    ("  if (i > 0) call s", {"s", "sub2"}, {"s", "sub2", "svar", "sfun"}),
+    ("  if (arr(1)%lx > (i)) call su", {"sub2"}, {"s", "sub2", "svar", "sfun"}),
+    ("  if (i > 0) i = s", {"s", "sub2", "svar", "sfun"}, {"s", "sub2", "svar", "sfun"}),
 ]
 UM = "module um\n  private\n  integer, public :: pub1\n  real :: hid\n  public :: pub2\n  integer :: pub2, hid2\nend module um\n"
 
@@ -163,4 +166,51 @@ def contexts(k: int) -> bool:
         if not ok:
             FAIL.append(f"context {line!r}: offered {got} expected {want}")
     tock("contexts")
+    return ok
+
+
+# ------------------------------------------------------------------------------------ submodule ancestry
+SM_M = ("module smm\n  integer :: mvar\n  integer, private :: mpriv\n  interface\n    module subroutine wproc()\n    end subroutine wproc\n"
+        "  end interface\nend module smm\n")
+SM_1 = "submodule (smm) sub1\n  integer :: s1var\ncontains\n  subroutine s1helper()\n  end subroutine s1helper\nend submodule sub1\n"
+SM_2 = ("submodule (smm:sub1) sub2\n  integer :: s2var\ncontains\n  module subroutine wproc()\n    integer :: q\n    q = {}\n"
+        "  end subroutine wproc\nend submodule sub2\n")
+SM_O = "submodule (smm) other\n  integer :: ovar\nend submodule other\n"
+SM_NAMES = {"mvar": "smm.f90", "mpriv": "smm.f90", "s1var": "sub1.f90", "s1helper": "sub1.f90", "s2var": "sub2.f90", "q": "sub2.f90",
+            "wproc": None, "ovar": None}
+
+
+def submods(n: int, plen: int) -> bool:
+    """a submodule of a submodule (SUBMODULE (m:parent) name): inside its procedure every entity of the submodule, of
+    its parent submodule and of the ancestor module (private ones included: host association) is offered for every
+    prefix and resolves to its declaration; entities of a sibling submodule are not.  The outline names the unit.
+    pre: 0 <= n < len(SM_NAMES) and 1 <= plen <= 8
+    post: _
+    """
+    tick("submods")
+    n, plen = conc(n, 0, len(SM_NAMES) - 1), conc(plen, 1, 8)
+    ok = True
+    with NoTracing():
+        name = sorted(SM_NAMES)[n]
+        if plen <= len(name):
+            prefix = name[:plen]
+            files = {f"{R}/smm.f90": SM_M, f"{R}/sub1.f90": SM_1, f"{R}/other.f90": SM_O, f"{R}/sub2.f90": SM_2.format(prefix)}
+            for order in (list(files), list(reversed(list(files)))):
+                srv = ws.reset(SRV, {k: files[k] for k in order})
+                got, raw = labels(srv, f"{R}/sub2.f90", 5, 8 + plen)
+                want = {x for x in SM_NAMES if x.startswith(prefix) and x != "ovar"}
+                got_u = None if got is None else {g for g in got if g in SM_NAMES}
+                if got_u != want:
+                    FAIL.append(f"nested submodule, prefix {prefix!r}: offered {got_u} accessible {want}")
+                    ok = False
+                r = ws.request(srv, "textDocument/documentSymbol", f"{R}/sub2.f90", 0, 0)
+                if r[0] != "resp" or not any(s_["name"].lower() == "sub2" for s_ in r[1]):
+                    FAIL.append(f"outline of sub2.f90 does not list sub2: {r}")
+                    ok = False
+                if plen == len(name) and SM_NAMES[name]:
+                    d = ws.request(srv, "textDocument/definition", f"{R}/sub2.f90", 5, 8 + plen - 1)
+                    if d[0] != "resp" or not d[1] or not d[1]["uri"].endswith("/" + SM_NAMES[name]):
+                        FAIL.append(f"nested submodule: definition of {name} -> {d}")
+                        ok = False
+    tock("submods")
     return ok
